@@ -90,12 +90,12 @@ def ast_of_spec_enc(spec):
             return None
         if "$ref" in s:
             nm = refname(s["$ref"])
-            return f"r{idx(nm)}" if nm is not None else "o(||||-|-)"
+            return f"r{idx(nm)}" if nm is not None else "o(||||-|-|0)"
         props = s.get("properties") if isinstance(s.get("properties"), dict) else {}
         p = ",".join(x for x in (go(v) for v in props.values()) if x)
         it = go(s.get("items")) if isinstance(s.get("items"), dict) else None
         ad = go(s.get("additionalProperties")) if isinstance(s.get("additionalProperties"), dict) else None
-        return f"o({p}|{lst(s.get('allOf'))}|{lst(s.get('oneOf'))}|{lst(s.get('anyOf'))}|{it or '-'}|{ad or '-'})"
+        return f"o({p}|{lst(s.get('allOf'))}|{lst(s.get('oneOf'))}|{lst(s.get('anyOf'))}|{it or '-'}|{ad or '-'}|{1 if s.get('discriminator') else 0})"
 
     def resolve_top(s, depth=0):
         while isinstance(s, dict) and "$ref" in s and depth < 50:
@@ -106,7 +106,7 @@ def ast_of_spec_enc(spec):
     tops = []
     for nm in names:
         s = resolve_top(schemas[nm])
-        tops.append(go(s) if s is not None else "o(||||-|-)")
+        tops.append(go(s) if s is not None else "o(||||-|-|0)")
     return names, ";".join(tops), go
 
 
